@@ -1,0 +1,8 @@
+use super::Line;
+
+impl Line {
+    /// The soft-wrap mark of this line (read-only; `verif` feature only).
+    pub fn verif_wrapped(&self) -> bool {
+        self.wrapped
+    }
+}
